@@ -293,6 +293,47 @@ def r4(R):
                     'a missing backup file no longer makes verification fail')
 
 
+def _sum_kinds(node, kinds, lab):
+    """Flow-sensitive kinds of the locals of do_backup:
+    'src'  = a checksum computed from the source file (checksum(...)),
+    'repo' = a value read from the repository (concat() / scandat())."""
+    a = node.ast
+    if lab in ('e', 'eb') or node.kind != 'stmt' or not isinstance(
+            a, ast.Assign):
+        return kinds
+    d = dict(kinds)
+    fnm = copied = None
+    if isinstance(a.value, ast.Call):
+        fnm = dotted(a.value.func)
+        fnm = fnm[-1] if fnm else None
+    elif isinstance(a.value, ast.Name):
+        copied = d.get(a.value.id)
+    for t in a.targets:
+        names = [x.id for x in ast.walk(t) if isinstance(x, ast.Name)]
+        for nm in names:
+            d.pop(nm, None)
+            if fnm == 'checksum':
+                d[nm] = 'src'
+            elif fnm in ('concat', 'scandat'):
+                d[nm] = 'repo'
+            elif copied is not None and isinstance(t, ast.Name):
+                d[nm] = copied
+    return frozenset(d.items())
+
+
+def _sum_compare(e, truth, kinds):
+    """-> True/False if `e` (taken with `truth`) says a source checksum
+    equals / differs from a repository value; None if it says nothing."""
+    if isinstance(e, ast.Compare) and len(e.ops) == 1 and isinstance(
+            e.ops[0], (ast.Eq, ast.NotEq)) and isinstance(
+                e.left, ast.Name) and isinstance(e.comparators[0], ast.Name):
+        k = dict(kinds)
+        ks = {k.get(e.left.id), k.get(e.comparators[0].id)}
+        if ks == {'src', 'repo'}:
+            return isinstance(e.ops[0], ast.Eq) == truth
+    return None
+
+
 @rule('C18.R5', 'an incremental backup is taken only if the part already '
       'backed up still matches by checksum', min_instances=2)
 def r5(R):
@@ -300,45 +341,33 @@ def r5(R):
     g, b, F = R.cfg(f, None, max_depth=0)
     sites = [0]
 
-    def is_sum(e, fr):
-        pv = provenance(e, fr, F)
-        return prov_has(pv, 'call', lambda p: p[-1].split('.')[-1] in (
-            'checksum', 'concat', 'scandat'))
-
     def edge(node, st, lab, tgt):
+        m, kinds = st
+        kinds = _sum_kinds(node, kinds, lab)
         if node.kind == 'test' and lab in ('T', 'F'):
             for e, truth in implied_atoms(node.ast, lab):
-                if isinstance(e, ast.Compare) and len(e.ops) == 1 and \
-                        isinstance(e.ops[0], (ast.Eq, ast.NotEq)) and \
-                        isinstance(e.left, ast.Name) and isinstance(
-                            e.comparators[0], ast.Name) and \
-                        'sum' in e.left.id and 'sum' in e.comparators[0].id \
-                        and is_sum(e.left, node.frame) and is_sum(
-                            e.comparators[0], node.frame):
-                    eq = isinstance(e.ops[0], ast.Eq) == truth
-                    # the comparison about the backed-up PREFIX
-                    names = {e.left.id, e.comparators[0].id}
-                    if names & {'srcsum_backedup', 'sum'} or 'reposum' in \
-                            names and 'srcsum_backedup' in names:
-                        return 'match' if eq else 'differ'
-        return st
+                r = _sum_compare(e, truth, kinds)
+                if r is not None:
+                    m = 'match' if r else 'differ'
+        return (m, kinds)
 
     def at(node, st):
+        m, kinds = st
         for op in F.ops(node):
             if op.kind == 'call' and op.path and op.path[-1].endswith(
                     'do_incremental_backup'):
                 sites[0] += 1
-                if st != 'match':
+                if m != 'match':
                     return Violation(
                         'an incremental backup is taken although the '
                         'already backed-up prefix was %s: after a pack the '
                         'increment is appended to an unrelated base and '
                         'recovery produces garbage' % (
-                            'found to differ' if st == 'differ'
+                            'found to differ' if m == 'differ'
                             else 'not compared'))
         return st
 
-    vs, stats = explore(g, 'none', at=at, edge=edge)
+    vs, stats = explore(g, ('none', frozenset()), at=at, edge=edge)
     R.count(stats)
     R.instance('do_backup incremental call sites', n=sites[0])
     R.instance('prefix checksum comparison')
@@ -356,42 +385,23 @@ def r6(R):
     R.instance('do_backup no-change decisions')
     rets = [0]
 
-    def kind(e, fr):
-        pv = provenance(e, fr, F)
-        repo = prov_has(pv, 'call', lambda p: p[-1].split('.')[-1] in (
-            'concat', 'scandat'))
-        src = prov_has(pv, 'call', lambda p: p[-1].split('.')[-1] ==
-                       'checksum')
-        return repo, src
-
     def edge(node, st, lab, tgt):
-        verified, backed = st
+        verified, backed, kinds = st
+        kinds = _sum_kinds(node, kinds, lab)
         if node.kind == 'test' and lab in ('T', 'F'):
             for e, truth in implied_atoms(node.ast, lab):
-                if isinstance(e, ast.Compare) and len(e.ops) == 1 and \
-                        isinstance(e.ops[0], (ast.Eq, ast.NotEq)) and \
-                        isinstance(e.left, ast.Name) and isinstance(
-                            e.comparators[0], ast.Name) and \
-                        'sum' in e.left.id and 'sum' in e.comparators[0].id:
-                    eq = isinstance(e.ops[0], ast.Eq) == truth
-                    ra, sa = kind(e.left, node.frame)
-                    rb, sb = kind(e.comparators[0], node.frame)
-                    # one side is a checksum of the source, the other
-                    # comes from the repository and is not itself a
-                    # checksum of the source
-                    if eq and ((ra and not sa and sb) or
-                               (rb and not sb and sa)):
-                        verified = True
+                if _sum_compare(e, truth, kinds) is True:
+                    verified = True
         if lab != 'e':
             for op in F.ops(node):
                 if op.kind == 'call' and op.path and op.path[-1].split(
                         '.')[-1] in ('do_full_backup',
                                      'do_incremental_backup'):
                     backed = True
-        return (verified, backed)
+        return (verified, backed, kinds)
 
     def at(node, st):
-        verified, backed = st
+        verified, backed, kinds = st
         if node.kind == 'return' and node.frame.parent is None:
             rets[0] += 1
             if not backed and not verified:
@@ -404,7 +414,7 @@ def r6(R):
                     '"no changes" and recovery yields the stale file')
         return st
 
-    vs, stats = explore(g, (False, False), at=at, edge=edge)
+    vs, stats = explore(g, (False, False, frozenset()), at=at, edge=edge)
     R.count(stats)
     R.require(rets[0] or vs, 'do_backup has no return')
     for v in vs:
